@@ -282,7 +282,13 @@ class Session:
                 g = torch.Generator().manual_seed(4711)
                 mol.velocities = 0.01 * torch.randn(mol.coordinates.shape, generator=g, dtype=mol.coordinates.dtype) * (mol.species > 0).unsqueeze(-1)
             md.run(mol, steps=3, seed=11, remove_com=tuple(rc) if rc else None)
-            return {"x": _np(mol.coordinates), "v": _np(mol.velocities), "Etot": _np(mol.Etot)}
+            res = {"x": _np(mol.coordinates), "v": _np(mol.velocities), "Etot": _np(mol.Etot)}
+            if eng == "sh":
+                # the electronic state of the surface-hopping run: amplitudes, active surfaces, logged events
+                res["amp"] = _np(md._amp_phase)
+                res["active"] = _np(md._active_states)
+                res["hops"] = np.array([[e.step, e.from_state, e.to_state, int(bool(e.accepted)), e.mol_index] for e in md.hop_log], dtype=np.int64).reshape(-1, 5)
+            return res
         if kind == "opt":
             key = ("opt", id(sp))
             need = set(mol.species.reshape(-1).tolist())
